@@ -13,7 +13,8 @@
     * LAST_VALUE reads the frame mirrored around the current row         (pre-finding F14)
     * NTH_VALUE returns the last visited cell when the frame is too short (new)
     * an aggregate over an inverted frame panics in windowValues          (new)
-    * COUNT(*) OVER (…) is rejected                                       (pre-finding F8)
+  (Pre-finding F8 — COUNT(*) OVER (…) rejected — has been fixed in /repo; `agg_column_found` holds in
+  full and the harness law `analytic:count_star_over_rejected` guards against its return.)
   LEAD has no windowing clause in the grammar (parser.y: FUNCTION_WITH_INS … analytic_clause), so the
   reversal it shares with LAST_VALUE is harmless: `lead_spec` holds in full.
 -/
@@ -115,6 +116,73 @@ theorem peers_of_sorted_key (key : Nat → Nat) (p : List Nat) (hs : p.Pairwise 
     simp only [List.pairwise_cons, List.mem_cons, List.not_mem_nil, or_false, forall_eq_or_imp, forall_eq,
       List.Pairwise.nil, and_true, implies_true] at hp
     omega
+
+/-- more generally: a partition sorted by ANY strict weak order `lt` (the ORDER BY comparison), with
+    "neither sorts before the other" as the peer relation, satisfies the hypotheses -/
+theorem peers_of_sorted (lt eqv : Nat → Nat → Bool) (p : List Nat)
+    (hneg : ∀ a b c, lt a c = true → lt a b = true ∨ lt b c = true)
+    (heqv : ∀ a b, eqv a b = (!lt a b && !lt b a))
+    (hs : p.Pairwise (fun a b => lt b a = false)) : Peers eqv p := by
+  refine ⟨?_, ?_, ?_⟩
+  · intro a b h; rw [heqv] at h ⊢; simp only [Bool.and_eq_true, Bool.not_eq_eq_eq_not, Bool.not_true] at h ⊢; exact ⟨h.2, h.1⟩
+  · intro a b c h1 h2
+    rw [heqv] at h1 h2 ⊢
+    simp only [Bool.and_eq_true, Bool.not_eq_eq_eq_not, Bool.not_true] at h1 h2 ⊢
+    constructor
+    · cases h : lt a c with
+      | false => rfl
+      | true => rcases hneg a b c h with h' | h' <;> simp_all
+    · cases h : lt c a with
+      | false => rfl
+      | true => rcases hneg c b a h with h' | h' <;> simp_all
+  · intro y z x hsub h
+    have hp := List.Pairwise.sublist hsub hs
+    simp only [List.pairwise_cons, List.mem_cons, List.not_mem_nil, or_false, forall_eq_or_imp, forall_eq,
+      List.Pairwise.nil, and_true, implies_true] at hp
+    rw [heqv] at h ⊢
+    simp only [Bool.and_eq_true, Bool.not_eq_eq_eq_not, Bool.not_true] at h ⊢
+    refine ⟨?_, hp.1.1⟩
+    cases hyz : lt y z with
+    | false => rfl
+    | true => rcases hneg y x z hyz with h' | h' <;> simp_all
+
+/-- the textbook form of RANK on a sorted partition: one more than the number of rows of the
+    partition that sort strictly before the current row -/
+theorem rank_textbook (lt eqv : Nat → Nat → Bool) (pre : List Nat) (x : Nat) (post : List Nat)
+    (hirr : lt x x = false) (heqv : ∀ a b, eqv a b = (!lt a b && !lt b a))
+    (hs : (pre ++ x :: post).Pairwise (fun a b => lt b a = false)) :
+    rankSpec eqv pre x post = 1 + ((pre ++ x :: post).filter fun j => lt j x).length := by
+  obtain ⟨_, hxpost, hcross⟩ := List.pairwise_append.mp hs
+  have hpre : ∀ j ∈ pre, lt x j = false := fun j hj => hcross j hj x (by simp)
+  have hpost : ∀ j ∈ post, lt j x = false := fun j hj => (List.pairwise_cons.mp hxpost).1 j hj
+  unfold rankSpec
+  rw [List.filter_append, List.filter_cons, hirr]
+  simp only [Bool.false_eq_true, if_false, List.length_append]
+  rw [filter_length_none _ post hpost]
+  congr 2
+  apply List.filter_congr
+  intro j hj
+  rw [heqv, hpre j hj]; simp
+
+/-- the textbook form of CUME_DIST: (rows that do not sort after the current row) / (rows) -/
+theorem cume_dist_textbook (lt eqv : Nat → Nat → Bool) (pre : List Nat) (x : Nat) (post : List Nat)
+    (hirr : lt x x = false) (heqv : ∀ a b, eqv a b = (!lt a b && !lt b a))
+    (hs : (pre ++ x :: post).Pairwise (fun a b => lt b a = false)) :
+    cumeDistSpec eqv pre x post
+      = (((pre ++ x :: post).filter fun j => !lt x j).length, (pre ++ x :: post).length) := by
+  obtain ⟨_, hxpost, hcross⟩ := List.pairwise_append.mp hs
+  have hpre : ∀ j ∈ pre, lt x j = false := fun j hj => hcross j hj x (by simp)
+  have hpost : ∀ j ∈ post, lt j x = false := fun j hj => (List.pairwise_cons.mp hxpost).1 j hj
+  unfold cumeDistSpec
+  rw [List.filter_append, List.filter_cons, hirr]
+  simp only [Bool.not_false, if_true, List.length_append, List.length_cons]
+  rw [filter_length_all _ pre (fun j hj => by simp [hpre j hj])]
+  have : (post.filter fun j => eqv j x) = post.filter fun j => !lt x j := by
+    apply List.filter_congr
+    intro j hj
+    rw [heqv, hpost j hj]; simp
+  rw [this]
+  congr 1 <;> omega
 
 /-! ## NTILE -/
 
@@ -405,18 +473,14 @@ theorem listagg_over_spec {β : Type} (cells : Nat → Val) (agg : List Val → 
   intro a x b e
   simp [e]
 
-/-
-  FULL STATEMENT (false for the current code — F8): the select clause finds the column Analyze added,
+/-- `COUNT(*) OVER (…)` (pre-finding F8, fixed in /repo by 02f8662): the select clause finds the column
+    Analyze added, for every argument form … -/
+theorem agg_column_found (a : AggArg) : selectFindsColumn a = true := by
+  cases a <;> simp [selectFindsColumn, analyzeArg]
 
-  theorem agg_column_found (a : AggArg) : selectFindsColumn a = true
--/
-
-/-- `COUNT(*) OVER (…)`: Analyze registers the column under the identifier of `COUNT(*)`, rewrites the
-    shared argument slice to `COUNT(1)`, and the select clause then looks for `COUNT(1) OVER (…)` -/
-theorem count_star_over_rejected_counterexample : selectFindsColumn .allColumns = false := by decide
-
-theorem agg_column_found_partial (a : AggArg) (h : a ≠ .allColumns) : selectFindsColumn a = true := by
-  cases a <;> simp_all [selectFindsColumn, analyzeArg]
+/-- … and what is evaluated for `*` is the literal 1, which is never NULL: COUNT(*) counts the rows of
+    the frame -/
+theorem count_star_counts_rows : (analyzeArg .allColumns).evaluated = .int1 := rfl
 
 /-! ## the result column: other columns and the number of rows are unaffected -/
 
